@@ -9,6 +9,14 @@ CHECKS = {
    text="The doubles are specified as state machines (MqttTest.tla); TLC checks the C20 predicates on every history of the bounded model, exports every terminal history as stimulus, the Go worker runs them on the real mqtttest doubles with a recording testing.TB, and TLC evaluates the same predicates on every recorded trace (plus step-by-step conformance). Exhaustive small scope is the right level: the doubles are tiny and data-independent beyond equal/different.",
    note="Bounds: expectation lists <= 1 (quick) / <= 2 (thorough), <= 2 / <= 3 invocations, 2 messages x 2 topics, 5 filter lists, quit nil/open/closed. 'Stays open' observed as 150 ms of silence. Duplicate filters in one invocation are not judged.",
    ref="6 (C20)"),
+ "C15": dict(engine="rugged", technique="TLC model checking of spec/Rugged.tla (FNV-1a in 16-bit limbs, every single-byte damage and truncation of bounded records) + real encode/decode and AdoptSession/connect on damaged real records judged by TLC (RuggedJudge.tla)",
+   text="Rugged.tla specifies the record layout and the store key as a state machine (Save, Damage one byte, Truncate); TLC proves by enumeration on bounded records that decode inverts encode and that every single-byte alteration (all 255 values at every position) and every truncation below 12 bytes is rejected. The real encodeValue/decodeValue (through verif-tag accessors) are run on packets from 0 bytes to multi-buffer size with sequence numbers 0, 2^32, 2^64-1; every position x every value of real records is altered and decoded, and the values a real client saved are altered and given to AdoptSession and to a connecting client; TLC compares the layouts with Rugged!Encode and judges the observations.",
+   note="Bounded model: packets <= 2 (quick) / 3 (thorough) bytes over a 3/4-letter alphabet, 5 sequence numbers, all 256 byte values. Real records: sizes 12..1012 bytes exhaustively, 4 KiB / 70 KiB with seeded values. Multi-byte damage measured, not claimed.",
+   ref="6 (C15)"),
+ "C09": dict(engine="codec", technique="TLA+ grammar model spec/Codec.tla: TLC enumerates the request-class cross product and computes the expected packet; the real client's bytes are decoded by an independent decoder and judged by TLC (CodecJudge.tla)",
+   text="Codec.tla gives the MQTT 3.1.1 grammar of every packet the client emits as a relation request -> structured packet (remaining-length arithmetic, flags, field order, identifier spaces, string validity classes, size limits). TLC enumerates the cross product of field classes (string class x length boundary x payload size across every remaining-length width x operation x Config combination), the Go worker instantiates each class with concrete bytes and calls the real method on a fresh online client, an independent decoder turns the emitted bytes into a structured record, and TLC compares it with Codec!Expect and checks denial <=> invalid and that a denial leaves no trace (nothing written, nothing saved, no slot or identifier consumed, a following publish at Max=1 still accepted).",
+   note="Trusted: harness/codec decoder for byte slicing (re-encoding must reproduce the bytes). 13.7k (quick) / 54k (thorough) request classes; the 256 MiB boundary for three operations.",
+   ref="6 (C09)"),
 }
 
 def main():
